@@ -1663,10 +1663,15 @@ theorem quad_upper (f f' : ℝ → ℝ) (hd : ∀ x, HasDerivAt f (f' x) x) (K x
     (f b - K / 2 * (b - xs) ^ 2) - (f a - K / 2 * (a - xs) ^ 2) ≤ 0 := by
   have hh : ∀ x, HasDerivAt (fun x => f x - K / 2 * (x - xs) ^ 2) (f' x - K * (x - xs)) x := by
     intro x
-    have h1 := (((hasDerivAt_id x).sub_const xs).pow 2).const_mul (K / 2)
-    have h2 := (hd x).sub h1
-    convert h2 using 1
-    ring
+    have hq : HasDerivAt (fun y : ℝ => (y - xs) ^ 2) (2 * (x - xs)) x := by
+      have := ((hasDerivAt_id' x).sub_const xs).fun_pow 2
+      simpa using this
+    have h1 : HasDerivAt (fun y : ℝ => K / 2 * (y - xs) ^ 2) (K * (x - xs)) x := by
+      have := hq.const_mul (K / 2)
+      have e : K / 2 * (2 * (x - xs)) = K * (x - xs) := by ring
+      rw [e] at this
+      exact this
+    exact (hd x).fun_sub h1
   have := (convex_Icc a b).image_sub_le_mul_sub_of_deriv_le (f := fun x => f x - K / 2 * (x - xs) ^ 2) (C := 0)
     (fun x _ => (hh x).continuousAt.continuousWithinAt)
     (fun x _ => (hh x).differentiableAt.differentiableWithinAt)
@@ -1679,10 +1684,15 @@ theorem quad_lower (f f' : ℝ → ℝ) (hd : ∀ x, HasDerivAt f (f' x) x) (K x
     0 ≤ (f b - K / 2 * (b - xs) ^ 2) - (f a - K / 2 * (a - xs) ^ 2) := by
   have hh : ∀ x, HasDerivAt (fun x => f x - K / 2 * (x - xs) ^ 2) (f' x - K * (x - xs)) x := by
     intro x
-    have h1 := (((hasDerivAt_id x).sub_const xs).pow 2).const_mul (K / 2)
-    have h2 := (hd x).sub h1
-    convert h2 using 1
-    ring
+    have hq : HasDerivAt (fun y : ℝ => (y - xs) ^ 2) (2 * (x - xs)) x := by
+      have := ((hasDerivAt_id' x).sub_const xs).fun_pow 2
+      simpa using this
+    have h1 : HasDerivAt (fun y : ℝ => K / 2 * (y - xs) ^ 2) (K * (x - xs)) x := by
+      have := hq.const_mul (K / 2)
+      have e : K / 2 * (2 * (x - xs)) = K * (x - xs) := by ring
+      rw [e] at this
+      exact this
+    exact (hd x).fun_sub h1
   have := (convex_Icc a b).mul_sub_le_image_sub_of_le_deriv (f := fun x => f x - K / 2 * (x - xs) ^ 2) (C := 0)
     (fun x _ => (hh x).continuousAt.continuousWithinAt)
     (fun x _ => (hh x).differentiableAt.differentiableWithinAt)
